@@ -94,12 +94,14 @@ MANIFEST = {
     "text": "Lean theorems over the transliterated resolution / offload code: for ALL stored objects, fault sequences and retry "
             "budgets, anything handed to application code comes from a payload whose digest, schema, pointer-freeness and "
             "single data batch were checked (and, for a collision-free digest, IS the uploaded cycle); for ALL thresholds, "
-            "codecs, sizes, stores and step scripts the client's observation with offload equals the inline one. Model tied to "
+            "codecs, sizes, stores, step scripts — and over HTTP all break decisions — the client's observation with offload "
+            "equals the inline one (socket family and HTTP, producer and exchange, unary result / header / request). Model tied to "
             "the code by extraction of the check order / guards and by differential runs against the real code with the "
             "repository's fake object store, including a storage-side corruption grammar.",
     "note": "Arrow IPC, codecs, SHA-256 and the object store are structures with their laws as fields; pointers without a digest "
             "are integrity-checked structurally only (by design)",
-    "technique": "Lean 4 proof (invariant of the read loop, induction over retry fuel and step scripts, refinement to Engine.Sem) + "
+    "technique": "Lean 4 proof (invariant of the read loop, induction over retry fuel and step scripts, flattening of pointer wires "
+                 "onto the Engine readers, refinement to Engine.Sem) + "
                  "AST extraction of shapes + generated-program differential runs with fault injection in the object store",
 }
 
